@@ -129,11 +129,11 @@ Example C09_ex_sorted_stable :
 Proof. vm_compute. reflexivity. Qed.
 
 (* ---- the hash finalisers as translated from /repo's sources on this run (Extracted/RsHash.v, RsMix.v) *)
-From SV Require Rs.Prelude Rs.Proofs Extracted.RsHash Extracted.RsMix.
+From SV Require Rs.Prelude Rs.ProofsHash Extracted.RsHash Extracted.RsMix.
 
 Theorem C09_source_hash_64 : forall h, SV.Extracted.RsHash.rs_hash_64 h = fmix64_32 h.
-Proof. exact SV.Rs.Proofs.rs_hash_64_eq. Qed.
+Proof. exact SV.Rs.ProofsHash.rs_hash_64_eq. Qed.
 
 Theorem C09_source_promote : forall h, 0 <= h < 2 ^ 32 ->
   SV.Extracted.RsHash.rs_promote h = (h * 11400714819323198485) mod 2 ^ 64.
-Proof. intros h H. rewrite SV.Rs.Proofs.rs_promote_eq. exact (SV.Rs.Proofs.rs_mix_u32_eq h H). Qed.
+Proof. intros h H. rewrite SV.Rs.ProofsHash.rs_promote_eq. exact (SV.Rs.ProofsHash.rs_mix_u32_eq h H). Qed.
